@@ -31,6 +31,8 @@ mod truncate;
 mod verif;
 #[cfg(feature = "verif")]
 pub use verif::{VerifGate, VerifSnapshot};
+#[cfg(feature = "verif")]
+pub(crate) use compress::verif_builtin_scalars;
 
 #[cfg(test)]
 mod tests;
